@@ -288,11 +288,11 @@ def check_state_change(ctx):
     ctx.expect(paths, ret=2)
 
 
-def check_state_recreate(ctx):
+def check_state_recreate(ctx, k="k_state_recreate"):
     install_exc(ctx.eng)
     ctx.eng.max_strlen = 64
     x = ctx.sym("x", 32)
-    paths = ctx.run("k_state_recreate", [x])
+    paths = ctx.run(k, [x])
     for q in paths:
         if q.status != "ret":
             ctx.fail(q, "ended %s %s" % (q.status, q.info))
@@ -303,7 +303,7 @@ def check_state_recreate(ctx):
         want = [("in", INVOKE, A), ("out", CALLBACK, A), ("in", CALLBACK, A), ("out", INVOKE, A)]
         fin = [e for e in lg if e[0] == 26]
         ctx.require(q, z3.BoolVal(seq == want and bool(fin) and conc(fin[0][1]) == A),
-                    "the transition state installed on a sandbox object is carried by the notifications of its next incarnation (got %s)" % (seq,))
+                    "every notification carries the transition state the embedder installed last (%s; got %s)" % ("cleared to null" if k == "k_state_cleared" else "kept across destroy + create", seq))
     ctx.only(paths, "ret")
     ctx.expect(paths, ret=1)
 
@@ -313,7 +313,8 @@ def jobs(tier, seed):
     two = [Job("C19_noop_two", NOOP + '#include "C19_two.inc"\n', [dict(name="noop two sandboxes, nested visit may abort", fn=check_two_tree, unwind=400),
                                                                      dict(name="noop transition state replaced during an invocation", fn=check_state_change, unwind=400),
                                                                      dict(name="noop void sandbox functions", fn=check_void_invoke, unwind=400),
-                                                                     dict(name="noop transition state across destroy + create", fn=check_state_recreate, unwind=400)], native=False,
+                                                                     dict(name="noop transition state across destroy + create", fn=check_state_recreate, unwind=400),
+                                                                     dict(name="noop transition state cleared to null", fn=check_state_recreate, kw=dict(k="k_state_cleared"), unwind=400)], native=False,
                flags=["-D_GLIBCXX_EXTERN_TEMPLATE=0"]),
            Job("C19_dylib_two", DYLIB + '#include "C19_two.inc"\n', [dict(name="dylib two sandboxes, nested visit may abort", fn=check_two_tree, unwind=400)], native=False,
                flags=["-D_GLIBCXX_EXTERN_TEMPLATE=0"])]
